@@ -375,3 +375,88 @@ Check max_columns_line_or_notice :
     w_out (write_line_c gends cfg cc env sk line w)
     = w_out w ++ line_or_notice gends (e_lt env) (cc_max cc) (cc_preview cc) (cc_trim cc)
                    (st_only_matching cfg) (is_context sk) (k_matches sk) line.
+
+(* 15. the other paths through write_line with the new options.  Line-oriented -o / --vimgrep: one record per
+   recorded span, coordinates of the span, the text (the span / the whole line) through line_or_notice —
+   under -o the limit and --trim apply to the MATCH text, and the notice never carries a count *)
+Theorem cols_only_matching_records :
+  forall gends cfg cc env path sk w, st_only_matching cfg = true ->
+    w_out (sink_slow_c gends cfg cc env path sk w)
+    = w_out w ++ concat (map (span_record_c gends cfg cc env path sk true) (k_matches sk)).
+Proof. exact sink_slow_c_only_matching_layout. Qed.
+Print Assumptions cols_only_matching_records.
+
+Theorem cols_per_match_records :
+  forall gends cfg cc env path sk w, st_only_matching cfg = false -> st_per_match cfg = true ->
+    w_out (sink_slow_c gends cfg cc env path sk w)
+    = w_out w ++ concat (map (span_record_c gends cfg cc env path sk false) (k_matches sk)).
+Proof. exact sink_slow_c_per_match_layout. Qed.
+Print Assumptions cols_per_match_records.
+
+(* multi-line block without recorded spans: every line of the block is its own line_or_notice record *)
+Theorem cols_record_shape_multi_line_fast :
+  forall gends cfg cc env path sk w,
+    w_out (sink_fast_multi_line_c gends cfg cc env path sk w)
+    = w_out w ++ block_records_c gends cfg cc env path sk (line_spans (lt_byte (e_lt env)) (k_bytes sk)) 0 (k_off sk).
+Proof. exact sink_fast_multi_line_c_layout. Qed.
+Print Assumptions cols_record_shape_multi_line_fast.
+
+(* multi-line block with recorded spans (-U --column / --stats, no -o / --vimgrep): per line the prelude of
+   theorem 9 and Spec/ColsSpec.v block_line_text — here matches, cut and line end are offsets into the same
+   block, so the "N more matches" count is the number of matches starting in the hidden part of the line.
+   Guard: where Rust's Match::with_end would panic (as in theorem 9, also for the cut line). *)
+Theorem cols_record_shape_multi_line_slow :
+  forall gends cfg cc env path sk w,
+    st_only_matching cfg = false -> st_per_match cfg = false -> k_matches sk <> [] ->
+    Forall (fun se => block_line_guard gends (e_lt env) (cc_max cc) (cc_trim cc) (k_bytes sk) (fst se) (snd se))
+           (line_spans (lt_byte (e_lt env)) (k_bytes sk)) ->
+    w_out (sink_slow_multi_line_c gends cfg cc env path sk w)
+    = w_out w ++ slow_block_records_c gends cfg cc env path sk (line_spans (lt_byte (e_lt env)) (k_bytes sk)) 0.
+Proof. exact sink_slow_multi_line_c_layout. Qed.
+Print Assumptions cols_record_shape_multi_line_slow.
+
+(* non-vacuity: the block "  xa\n   b and more\n" with the match "a\n   b" (3,9), --trim -M 4 --max-columns-preview:
+   the guard holds for both lines and the output is "f:1:4:xa\nf:2:4:b an [... 0 more matches]\n" *)
+Example cols_multi_line_example :
+  let blk := [32; 32; 120; 97; 10; 32; 32; 32; 98; 32; 97; 110; 100; 32; 109; 111; 114; 101; 10]%N in
+  let sk := mkSunk blk 0 (Some 1) None [(3, 9)] in
+  let cc := mkCol (Some 4) true true in
+  let cfg := mkStd false true false false false None true false false None None [58]%N [45]%N None in
+  Forall (fun se => block_line_guard ex_gends (e_lt ex_env) (cc_max cc) (cc_trim cc) blk (fst se) (snd se))
+         (line_spans 10%N blk) /\
+  w_out (sink_slow_multi_line_c ex_gends cfg cc ex_env (Some [102]%N) sk w_new)
+  = [102; 58; 49; 58; 52; 58; 120; 97; 10;
+     102; 58; 50; 58; 52; 58; 98; 32; 97; 110]%N
+    ++ msg_more_open ++ [48]%N ++ msg_more ++ msg_matches_close ++ [10]%N.
+Proof.
+  cbn zeta. split.
+  - vm_compute. repeat constructor; intros limit H; inversion H; subst; vm_compute; repeat constructor.
+  - vm_compute. reflexivity.
+Qed.
+
+(* 16. what is guaranteed about the preview.  For ANY segmentation function: the cut is 0 or the end of one of
+   the first `limit` graphemes it reports (so the preview holds at most `limit` graphemes and never splits one).
+   Under the only fact assumed about bstr's segmentation — every grapheme ends inside the string — the preview
+   is exactly the first k bytes of the shown line with k <= cut <= length. *)
+Theorem preview_cut_at_grapheme_boundary :
+  forall gends limit shown,
+    preview_cut gends limit shown = 0
+    \/ exists i, i < limit /\ nth_error (gends shown) i = Some (preview_cut gends limit shown).
+Proof. exact preview_cut_boundary. Qed.
+Print Assumptions preview_cut_at_grapheme_boundary.
+
+Theorem preview_is_a_prefix_within_the_cut :
+  forall gends lt limit shown,
+    Forall (fun e => e <= length shown) (gends shown) ->
+    let cut := preview_cut gends limit shown in
+    let k := trim_line_terminator lt shown 0 cut in
+    k <= cut /\ cut <= length shown /\ length (firstn k shown) = k.
+Proof. exact preview_prefix_length. Qed.
+Print Assumptions preview_is_a_prefix_within_the_cut.
+
+Example preview_prefix_example :      (* "héllo\n", 3 graphemes: cut 4, preview "hél" *)
+  let shown := [104; 195; 169; 108; 108; 111; 10]%N in
+  let g (_ : bytes) := [1; 3; 4; 5; 6; 7] in
+  Forall (fun e => e <= length shown) (g shown) /\ preview_cut g 3 shown = 4 /\
+  firstn (trim_line_terminator (LTByte 10%N) shown 0 4) shown = [104; 195; 169; 108]%N.
+Proof. vm_compute. repeat split; repeat constructor. Qed.
